@@ -385,6 +385,15 @@ public:
     virtual void process_list_end() = 0;
     virtual void done() = 0;  // marks the end of the file
 
+    /**
+     * The parser calls parse_begin() before and parse_end() after it
+     * parses one piece of text (a whole file, or one text block of an
+     * XML document). Builders that keep stacks across callbacks use
+     * them to drop what a failed parse has left half-built.
+     */
+    virtual void parse_begin() {}
+    virtual void parse_end(bool failed) {}
+
     virtual void handle_expect(const char* text) = 0;
 
     /********************************************************************
